@@ -130,6 +130,11 @@ Definition scan_begin (s : lexst) (inp : list byte) : lexst :=
 Definition scan_begin_failing (s : lexst) : lexst :=
   {| l_sc := INITIAL; l_bufs := (l_next s, []) :: l_bufs s; l_next := S (l_next s);
      l_q := l_q s; l_inc := l_inc s; l_echo := l_echo s; l_rderr := true |}.
+(* a stream that delivers inp and then fails (EIO): the failure is pending while inp is scanned.  (Faithful as long
+   as inp is shorter than flex's read-ahead and pushes no include: the C sets its flag when the failing read happens.) *)
+Definition scan_begin_partial (s : lexst) (inp : list byte) : lexst :=
+  {| l_sc := INITIAL; l_bufs := (l_next s, inp) :: l_bufs s; l_next := S (l_next s);
+     l_q := l_q s; l_inc := l_inc s; l_echo := l_echo s; l_rderr := true |}.
 Definition clear_rderr (s : lexst) : lexst :=
   {| l_sc := l_sc s; l_bufs := l_bufs s; l_next := l_next s; l_q := l_q s; l_inc := l_inc s; l_echo := l_echo s; l_rderr := false |}.
 
